@@ -258,6 +258,7 @@ type Exec struct {
 	unwinds  []Event
 	blocks   []Event // would-block events
 	spawns   []string
+	spawned  []spawnRec // goroutines started by `go` (not scheduled; vsRunSpawned runs one until it returns or blocks)
 	nondets  []NondetVar
 	observes []NondetVar
 	notes    []string
@@ -369,6 +370,11 @@ func (ex *Exec) ctxTail(n int) []string {
 		out = append(out, ex.ctx[i])
 	}
 	return out
+}
+
+type spawnRec struct {
+	fn   Value
+	args []Value
 }
 
 var traceDepth, _ = strconv.Atoi(os.Getenv("VS_TRACE"))
